@@ -459,6 +459,8 @@ def _round(number, num_digits, _rounding=decimal.ROUND_HALF_UP):
     number = decimal.Decimal(str(number))
     with decimal.localcontext() as dc:
         dc.rounding = _rounding
+        # The default 28 digits are not enough for ROUND(1E+30, 0).
+        dc.prec = max(dc.prec, number.adjusted() + int(num_digits) + 2)
         ans = round(number, int(num_digits))
     return float(ans)
 
